@@ -90,6 +90,10 @@ def render(rnd, secs, plain=False):
                     if not plain:
                         for _ in range(rnd.randint(0, 2)):
                             out += rnd.choice(['#c\n', ';d \\\n', '# [x]\n', cmt(rnd, True).lstrip(' \t'), cmt(rnd).lstrip(' \t')])
+            if not plain and rnd.random() < 0.1:
+                # a backslash that continues into nothing: the next line is empty, the value ends there (and what follows is its own entry)
+                out += ' \\' + ' ' * rnd.choice([0, 0, 2]) + '\n' + '\n' * rnd.choice([1, 1, 2, 3])
+                continue
             out += ('' if plain else rnd.choice(['', '', ' ', '\t', '  '])) + '\n'
     if not plain and out.endswith('\n') and rnd.random() < 0.3:
         out = out[:-1]
